@@ -1,46 +1,109 @@
 //go:build verif
 
-// c14: runs one single-source driver (`*.wa.go`, Go syntax) through the public API in-process:
-//   c14 run <file>   -> program output on stdout; exit 0 ok / 3 error or panic (message on stderr)
+// c14: runs one single-source driver (`*.wa.go`, Go syntax) through the same steps as api.RunCode
+// (api.BuildFile -> watutil.Wat2Wasm -> wazero.BuildModule/RunMain), in-process:
+//
+//	c14 run <file> [deadline-seconds]
+//
+// stdout: the program's output.  exit 0 ok / 3 compile error, trap or panic (message on stderr after
+// "STATUS:") / 4 deadline exceeded while the program was RUNNING (output so far is printed; the
+// interpreter buffers output, so the watchdog reads the buffer through a hook).
 // Imports of the driver ("strconv", "strings", ...) resolve to Wa's ports embedded from waroot/src,
 // so the binary must be rebuilt whenever /repo changes (ctx.build_harness does).
 package main
 
 import (
+	"bytes"
 	"fmt"
 	"os"
 	"path/filepath"
+	"strconv"
+	"time"
 
 	"wa-lang.org/wa/api"
+	"wa-lang.org/wa/internal/wat/watutil"
+	"wa-lang.org/wa/internal/wazero"
 )
 
+func fail(code int, status string) {
+	fmt.Fprintln(os.Stderr, "\nSTATUS:", status)
+	os.Exit(code)
+}
+
 func main() {
-	if len(os.Args) != 3 || os.Args[1] != "run" {
-		fmt.Fprintln(os.Stderr, "usage: c14 run <file.wa.go>")
+	if len(os.Args) < 3 || os.Args[1] != "run" {
+		fmt.Fprintln(os.Stderr, "usage: c14 run <file.wa.go> [deadline-seconds]")
 		os.Exit(2)
+	}
+	deadline := 0
+	if len(os.Args) > 3 {
+		deadline, _ = strconv.Atoi(os.Args[3])
 	}
 	src, err := os.ReadFile(os.Args[2])
 	if err != nil {
-		fmt.Fprintln(os.Stderr, "STATUS: err", err)
-		os.Exit(3)
+		fail(3, "err: "+err.Error())
 	}
-	status := "ok"
-	var out []byte
+	name := filepath.Base(os.Args[2])
+	t0 := time.Now()
+	var m *wazero.Module
+	var mainFunc string
 	func() {
 		defer func() {
 			if r := recover(); r != nil {
-				status = "panic: " + fmt.Sprint(r)
+				fail(3, "compile-panic: "+fmt.Sprint(r))
 			}
 		}()
-		o, err := api.RunCode(api.DefaultConfig(), filepath.Base(os.Args[2]), string(src))
-		out = o
+		mf, wat, fset, err := api.BuildFile(api.DefaultConfig(), name, string(src))
 		if err != nil {
-			status = "err: " + err.Error()
+			fail(3, "compile-error: "+err.Error())
 		}
+		wasm, err := watutil.Wat2Wasm(name, wat)
+		if err != nil {
+			fail(3, "compile-error: wat2wasm: "+err.Error())
+		}
+		m, err = wazero.BuildModule(name, wasm, fset)
+		if err != nil {
+			fail(3, "compile-error: module: "+err.Error())
+		}
+		mainFunc = mf
 	}()
-	os.Stdout.Write(out)
-	if status != "ok" {
-		fmt.Fprintln(os.Stderr, "\nSTATUS:", status)
-		os.Exit(3)
+	fmt.Fprintf(os.Stderr, "TIMING compile %.1fs\n", time.Since(t0).Seconds())
+	type res struct {
+		out, errout []byte
+		err         error
+		pan         string
+	}
+	ch := make(chan res, 1)
+	go func() {
+		var r res
+		defer func() {
+			if x := recover(); x != nil {
+				r.pan = fmt.Sprint(x)
+				r.out = wazero.VerifC14Stdout(m)
+			}
+			ch <- r
+		}()
+		r.out, r.errout, r.err = m.RunMain(mainFunc)
+	}()
+	var timeout <-chan time.Time
+	if deadline > 0 {
+		timeout = time.After(time.Duration(deadline) * time.Second)
+	}
+	select {
+	case r := <-ch:
+		os.Stdout.Write(r.out)
+		os.Stdout.Write(r.errout)
+		if r.pan != "" {
+			fail(3, "panic: "+r.pan)
+		}
+		if r.err != nil {
+			fail(3, "run-error: "+r.err.Error())
+		}
+	case <-timeout:
+		out := wazero.VerifC14Stdout(m)
+		if i := bytes.LastIndexByte(out, '\n'); i >= 0 {
+			os.Stdout.Write(out[:i+1])
+		}
+		fail(4, fmt.Sprintf("deadline: still running after %ds", deadline))
 	}
 }
